@@ -129,7 +129,9 @@ def run(ctx):
     xif2s = [0.25, 4.0] if not ctx.thorough() else [0.25, 0.5, 2.0, 4.0]
     for sv in ("expanded", "exponentiated"):
         for order in qcd_orders:
-            methods = ["truncated", "iterate-exact"] if (ctx.thorough() or order[0] <= 3) else ["truncated"]
+            # iterate-exact at N3LO: its discretisation error (~a_s^3 / iterations^2, different for the central and the varied
+            # run) hides the a_s^4 residual on any affordable number of iterations: judged with the truncated method only
+            methods = ["truncated", "iterate-exact"] if order[0] <= 3 else ["truncated"]
             for m in methods:
                 cases.append(dict(order=order, sv=sv, xif2=1.0, method=m, path="ffns"))
                 for x2 in xif2s:
